@@ -154,7 +154,11 @@ class StmtsMixin:
 
     def assign(self, target, val, st, d):
         if isinstance(target, ast.Name):
-            st = st.copy(); st.env[target.id] = val
+            st = st.copy()
+            decl = st.ghost.get("@decl:" + target.id)
+            if decl is not None:
+                val = self.adapt_to_annotation(val, decl, st)
+            st.env[target.id] = val
             return [st]
         if isinstance(target, ast.Attribute):
             out = []
@@ -212,6 +216,7 @@ class StmtsMixin:
         if s.value is None:
             if isinstance(s.target, ast.Name) and s.target.id not in st.env:
                 st = st.copy(); st.env[s.target.id] = None     # declared, unbound
+                st.ghost["@decl:" + s.target.id] = ann
             return [(st, "fall", None)]
         out = []
         self.pending_ann = ann
